@@ -57,13 +57,16 @@ Dep(a, b) ==
   \* execute()/spawn() is reported after the job may already be running; the drop after the client saw it
   \/ a.ev = "Dispatch" /\ b.ev = "H_Read"
   \/ a.ev = "Loop_Exit" /\ b.ev = "Cli_Eof"
+  \* descriptor exhaustion: accept() fails as soon as the table is full; the harness logs its own observation of the
+  \* full table (Fd_Exhaust) afterwards
+  \/ a.ev = "Fd_Exhaust" /\ b.ev = "Accept_Error"
 
 InitWith(r, n) ==
   /\ rt = r /\ nw = n
   /\ apc = "accept" /\ cur = NONE
   /\ spc = IF r = "threaded" THEN "recv" ELSE "join"
   /\ chan = FALSE /\ sent = FALSE /\ flag = FALSE
-  /\ listener = "open" /\ backlog = <<>>
+  /\ listener = "open" /\ backlog = <<>> /\ nofd = FALSE
   /\ queue = <<>> /\ alive = n /\ busy = {} /\ pooldrop = FALSE
   /\ cs = [c \in Conns |-> "none"]
   /\ inbuf = [c \in Conns |-> "empty"]
@@ -113,6 +116,12 @@ Act(e) ==
   \/ e.ev = "Wake_Connect" /\ Wake_Connect /\ UNCHANGED got
   \/ e.ev = "Run_Return" /\ e.v = 1 /\ Join_Return /\ UNCHANGED got
   \/ e.ev = "Accept_Return" /\ e.c \in Conns /\ Accept_Return /\ cur' = e.c /\ UNCHANGED got
+  \* the harness logs the first failed accept of a scenario and the one whose Flag_Read saw the flag set; the
+  \* (Accept_Error, Flag_Read = 0) rounds in between - millions, the loop spins - are counted, not logged
+  \/ e.ev = "Accept_Error" /\ Accept_Error /\ UNCHANGED got
+  \/ e.ev = "Fd_Exhaust" /\ Fd_Exhaust /\ UNCHANGED got
+  \* (the harness ends the fault when run has returned, or when it gave up waiting for that)
+  \/ e.ev = "Fd_Recover" /\ UNCHANGED got /\ Fd_End
   \/ e.ev = "Flag_Read" /\ Flag_Read /\ ((apc' = "exit") <=> (e.v = 1)) /\ UNCHANGED got
   \/ e.ev = "Dispatch" /\ Dispatch /\ UNCHANGED got
   \/ e.ev = "Loop_Exit" /\ rt = "threaded" /\ Loop_Exit /\ UNCHANGED got
